@@ -1,9 +1,10 @@
 //! verif_rt — a controllable runtime behind a std-shaped facade.
 //!
-//! `verif_rt::stdx` is `pub use std::*` with four modules overridden (`sync`, `thread`, `time`,
-//! `net`); a copy of tiny-http's sources in which the path root `std::` is replaced by
+//! `verif_rt::stdx` is `pub use std::*` with four modules overridden (`sync` — including
+//! `sync::atomic::AtomicBool` —, `thread`, `time`, `net`); a copy of tiny-http's sources in which the path root `std::` is replaced by
 //! `verif_rt::stdx::` therefore runs, unmodified otherwise, under the deterministic scheduler,
 //! the virtual clock and the in-memory network of this crate.
+pub mod atomic;
 pub mod net;
 pub mod sched;
 pub mod sync;
@@ -16,6 +17,9 @@ pub mod stdx {
     pub mod sync {
         pub use crate::sync::{Condvar, Mutex, MutexGuard, WaitTimeoutResult};
         pub use std::sync::*;
+        pub mod atomic {
+            pub use crate::atomic::*;
+        }
         pub mod mpsc {
             pub use crate::sync::mpsc::*;
         }
